@@ -215,7 +215,7 @@ pub fn run(tier: Tier) -> i32 {
                 V2::Invalid(r) => r,
             };
             // only the violations C17 lists
-            let listed = ["control byte", "props byte", "lc+lp", "needs more input", "chunk payload ends at", "range coder not finished", "produces more bytes", "shorter than declared", "ends before the end control", "truncated", "distance", "matched literal", "end marker inside"];
+            let listed = ["control byte", "props byte", "lc+lp", "needs more input", "chunk payload ends at", "range coder not finished", "produces more bytes", "shorter than declared", "ends before the end control", "truncated", "distance", "matched literal", "end marker inside", "end marker not allowed"];
             if !listed.iter().any(|k| reason.contains(k)) {
                 ctx.skipped.fetch_add(1, Ordering::Relaxed);
                 continue;
